@@ -725,6 +725,12 @@ func (x *Exec) evalIdent(env *specEnv, n *ast.Ident, cl *Clause) Val {
 		if v, ok := x.localByName(env, n.Name); ok {
 			return v
 		}
+		// variable captured by the function literal under proof (its current value)
+		for i, fv := range env.frame.fn.FreeVars {
+			if fv.Name() == n.Name && i < len(env.frame.bind) {
+				return x.freeVarValue(env.st, env.frame, i, fv)
+			}
+		}
 	}
 	// package-level variable
 	if m, ok := x.pkg.Members[n.Name]; ok {
